@@ -30,6 +30,15 @@ Proof. unfold t_of. apply map_snd_combine_map. Qed.
 Lemma t_scalar_id ns : t_scalar ns = ns.
 Proof. unfold t_scalar. rewrite t_of_id. apply map_fst_combine_map. Qed.
 
+Lemma t_rscalar_routed ns : t_rscalar true ns = ns.
+Proof. apply t_scalar_id. Qed.
+Lemma t_rscalar_pinned ns : t_rscalar false ns = map (fun _ => None) ns.
+Proof. unfold t_rscalar. rewrite t_of_id. reflexivity. Qed.
+
+Lemma t_rscalar_spec routed ns :
+  t_rscalar routed ns = if routed then ns else map (fun _ => None) ns.
+Proof. destruct routed; [apply t_rscalar_routed|apply t_rscalar_pinned]. Qed.
+
 Lemma resolve_binary_spec l r : resolve_binary l r = keep_left_iff l r.
 Proof. unfold resolve_binary, keep_left_iff. destruct r; [|reflexivity]. destruct (vname_eqb _ _); [reflexivity|]. destruct l; reflexivity. Qed.
 
@@ -160,9 +169,10 @@ Proof. unfold agg_names. apply t_of_id. Qed.
 (* ---- all compositions ---- *)
 Section Eval.
 Variable reserved : list str.
+Variable routed : bool.
 
-Fixpoint eval_agrees_v (e : vexpr) : eval_v reserved e = rule_v reserved e
-with eval_agrees_t (e : texpr) : eval_t reserved e = rule_t reserved e.
+Fixpoint eval_agrees_v (e : vexpr) : eval_v reserved routed e = rule_v reserved routed e
+with eval_agrees_t (e : texpr) : eval_t reserved routed e = rule_t reserved routed e.
 Proof.
   - destruct e; cbn [eval_v rule_v]; try reflexivity.
     + unfold v_keep. apply eval_agrees_v.
@@ -170,7 +180,7 @@ Proof.
   - destruct e; cbn [eval_t rule_t].
     + apply t_of_id.
     + rewrite t_of_id.
-      refine ((fix aux (l : list vexpr) : map (eval_v reserved) l = map (rule_v reserved) l :=
+      refine ((fix aux (l : list vexpr) : map (eval_v reserved routed) l = map (rule_v reserved routed) l :=
                  match l with
                  | [] => eq_refl
                  | a :: t => f_equal2 cons (eval_agrees_v a) (aux t)
@@ -182,6 +192,7 @@ Proof.
     + rewrite t_colslice_spec, eval_agrees_t. reflexivity.
     + rewrite join_names_spec, !eval_agrees_t. reflexivity.
     + rewrite t_scalar_id. apply eval_agrees_t.
+    + rewrite t_rscalar_spec, eval_agrees_t. reflexivity.
     + rewrite t_table_spec, !eval_agrees_t. reflexivity.
     + rewrite t_compare_scalar_spec, eval_agrees_t. reflexivity.
     + rewrite eval_agrees_t. destruct window; unfold window_names; apply agg_names_spec.
